@@ -24,7 +24,7 @@ func vtLoserCode(err error) bool {
 
 // N concurrent read-modify-write Sets (delta interceptor) on one Value: no increment is lost.
 func VT_C02_ValueDeltas() {
-	n := vt.Bound("writers", 2, 3)
+	n := vt.Bound("writers", 2, 2)
 	init := vt.Int64("init")
 	v := NewValue(WithInitialValue(&T2{DefaultInt64: init}))
 	deltas := make([]int64, n)
